@@ -166,6 +166,7 @@ private:
         void UnexpectedStaticOrTypeQualifiersInArrayDeclarator();
         void UnexpectedPointerInArrayDeclarator();
         void ExpectedNamedParameterBeforeEllipsis();
+        void UnexpectedAssignmentToNonUnaryExpression();
         void UnexpectedCaseLabelOutsideSwitch();
         void UnexpectedDefaultLabelOutsideSwitch();
         void UnexpectedContinueOutsideLoop();
@@ -178,6 +179,7 @@ private:
         static const std::string ID_of_UnexpectedStaticOrTypeQualifierInArrayDeclarator;
         static const std::string ID_of_UnexpectedPointerInArrayDeclarator;
         static const std::string ID_of_ExpectedNamedParameterBeforeEllipsis;
+        static const std::string ID_of_UnexpectedAssignmentToNonUnaryExpression;
         static const std::string ID_of_UnexpectedCaseLabelOutsideSwitch;
         static const std::string ID_of_UnexpectedDefaultLabelOutsideSwitch;
         static const std::string ID_of_UnexpectedContinueOutsideLoop;
